@@ -94,11 +94,49 @@ class NativeBackend(object):
                     var.sol = env[var.id]
                 type(self).ROUNDS = rounds
                 return True
-            occ = _vars_of(bad, {})
-            if not occ:
+            lemma = self.lemma(bad, env)
+            if lemma is None:
                 type(self).ROUNDS = rounds
                 return False  # a variable-free native constraint that is false
-            solver.add(z3.Or([vd[i] != env[i] for i in occ]))
+            solver.add(lemma)
+
+    def lemma(self, nc, env):
+        """A clause implied by the R-native meaning of `nc` that excludes the current valuation."""
+        from cspuz.expr import Op
+        from . import graphref, refsem
+
+        z3 = self.z3
+        vd = self.inner.variables_dict
+        conv = lambda e: self.cz3._convert_expr(e, vd)  # noqa: E731
+        if nc.op == Op.GRAPH_DIVISION:
+            ops = nc.operands
+            n, m = ops[0], ops[1]
+            size_ops = ops[2 : 2 + n]
+            flat = ops[2 + n : 2 + n + 2 * m]
+            edges = [(flat[2 * k], flat[2 * k + 1]) for k in range(m)]
+            border_ops = ops[2 + n + 2 * m :]
+            bvals = [refsem.ev(b, env) for b in border_ops]
+            differ = [conv(b) != z3.BoolVal(v) for b, v in zip(border_ops, bvals) if _vars_of(b, {})]
+            blocks = graphref.blocks_after_cut(n, edges, bvals)
+            where = {}
+            for blk in blocks:
+                for v in blk:
+                    where[v] = len(blk)
+            blk_of = {}
+            for k, blk in enumerate(blocks):
+                for v in blk:
+                    blk_of[v] = k
+            consistent = all(not (b and blk_of[u] == blk_of[v]) for (u, v), b in zip(edges, bvals))
+            if not consistent:
+                return z3.Or(differ) if differ else None
+            # given this border valuation the block sizes are forced
+            sizes = [conv(sz) == where[v] for v, sz in enumerate(size_ops) if sz is not None]
+            body = z3.And(sizes) if sizes else z3.BoolVal(True)
+            return z3.Or(differ + [body])
+        occ = _vars_of(nc, {})
+        if not occ:
+            return None
+        return z3.Or([vd[i] != env[i] for i in occ])
 
     def solve_irrefutably(self, is_answer_key):
         raise NotImplementedError
